@@ -10,7 +10,8 @@ COQ_FILES_C08 = ["Files/NpdScan.v", "Files/NpdScanProofs.v", "Files/TsTok.v", "F
                  "Files/TsParseBasics.v", "Files/TsSpec.v", "Files/TsSpecV2.v", "Files/TsSpecV1.v", "Files/TsMatrix.v",
                  "Files/TsLoadV2.v", "Files/TsLoadV1.v", "Files/TsEquiv.v", "Files/TsRender.v", "Files/NpdLoad.v", "Files/NpdLoadProofs.v",
                  "Files/TsExamples.v", "Files/TsFormat.v", "Files/TsFormatProofs.v", "Files/TsV2Order.v", "Files/TsV2OrderProofs.v",
-                 "Files/TsV2OrderExamples.v", "Files/NpdCols.v", "Files/NpdColsProofs.v", "Files/NpdColsExamples.v", "Properties_C08.v"]
+                 "Files/TsV2OrderExamples.v", "Files/NpdCols.v", "Files/NpdColsProofs.v", "Files/NpdColsExamples.v", "Files/TsFormatV2g.v", "Files/NpdHeaderOrder.v", "Properties_C08.v",
+                 "Files/TsFormatReal.v", "Properties_C08_real.v"]
 COQ_FILES_C09 = ["Files/TsTok.v", "Files/TsTokProofs.v", "Files/TsParse.v", "Files/TsParseBasics.v", "Files/TsTotal.v",
                  "Files/TsWf.v", "Files/NpdScan.v", "Files/NpdLoad.v", "Files/NpdLoadProofs.v", "Files/NpdWf.v", "Files/TsExamples.v",
                  "Properties_C09.v"]
